@@ -516,7 +516,8 @@ func (g *fgen) opArg(op string, d bson.D, path string, depth int) interface{} {
 		}
 		switch r.intn(8) {
 		case 0, 1:
-			return pick(r, []interface{}{int32(0), int32(1), int32(2), int32(3), int32(5), int32(255), int64(1) << 40, int64(math.MaxInt64), 4.0, 0.0, 9223372036854775808.0, math.Copysign(0, -1), int32(math.MaxInt32)})
+			return pick(r, []interface{}{int32(0), int32(1), int32(2), int32(3), int32(5), int32(255), int64(1) << 40, int64(math.MaxInt64), 4.0, 0.0, 9223372036854775808.0, math.Copysign(0, -1), int32(math.MaxInt32),
+				bson.A{9223372036854775808.0}, bson.A{1e19, int32(0)}, bson.A{int64(math.MaxInt64), int32(1)}, bson.A{18446744073709549568.0}})
 		case 2, 6:
 			for _, c := range cands {
 				if n, ok := toInt64(c); ok {
@@ -534,6 +535,12 @@ func (g *fgen) opArg(op string, d bson.D, path string, depth int) interface{} {
 					return m
 				}
 				if b, ok := c.(primitive.Binary); ok && len(b.Data) > 0 {
+					if r.chance(1, 3) {
+						// a position far beyond the data, in every numeric spelling up to the
+						// largest double below 2^64 (byte index arithmetic must not wrap)
+						return bson.A{int32(r.intn(8 * len(b.Data))), pick(r, []interface{}{9223372036854775808.0, 1e19, 18446744073709549568.0,
+							int64(math.MaxInt64), float64(int64(1) << 62), int64(1) << 35, int32(math.MaxInt32), 4294967296.0, 34359738368.0})}
+					}
 					return bson.A{int32(r.intn(8 * len(b.Data))), int32(r.intn(8*len(b.Data) + 4))}
 				}
 			}
